@@ -75,6 +75,11 @@ def heuristicRetained (N : Net n) (node : Space n) (nfvs : List (Fin n)) (avoid 
       | none => some (majority N node v)
     else none
 
+/-- the better of the two one-variable extensions (ties keep the `false` extension) -/
+def pickSt (r0 r1 : Space n) (z o : List (State n)) (calls : List (Call n)) : CandSt n :=
+  if z.length ≤ o.length then { retained := r0, cands := z, calls := calls }
+  else { retained := r1, cands := o, calls := calls }
+
 /-- the regeneration loop body for one NFVS variable -/
 def regenVar (solve : Space n → Nat → List (State n)) (cfg : CandCfg) (limitC : Nat) (avoidEmpty : Bool)
     (keysOf : Space n → List (Fin n)) (st : CandSt n) (v : Fin n) : Option (CandSt n) :=
@@ -89,8 +94,7 @@ def regenVar (solve : Space n → Nat → List (State n)) (cfg : CandCfg) (limit
     if z.length ≥ limitC && o.length ≥ limitC then none
     else if o.length ≤ st.cands.length then some { retained := r1, cands := o, calls := calls }
     else
-      let st' : CandSt n := if z.length ≤ o.length then { retained := r0, cands := z, calls := calls }
-                            else { retained := r1, cands := o, calls := calls }
+      let st' : CandSt n := pickSt r0 r1 z o calls
       if st'.cands.length > cfg.threshold then
         some (greedyLoop solve avoidEmpty (keysOf st'.retained) (st'.cands.length + 2) st')
       else some st'
